@@ -1407,12 +1407,21 @@ impl FdlActiveStation {
 
             // Only check and transition to ActiveIdle on the first telegram.
             if first_in {
-                if telegram.source_address() != Some(self.token_ring.next_station()) {
-                    log::warn!(
-                        "Unexpected station #{} transmitting after token pass to #{}",
-                        telegram.source_address().unwrap(),
-                        self.token_ring.next_station()
-                    );
+                match telegram.source_address() {
+                    Some(source) if source == self.token_ring.next_station() => (),
+                    Some(source) => {
+                        log::warn!(
+                            "Unexpected station #{} transmitting after token pass to #{}",
+                            source,
+                            self.token_ring.next_station()
+                        );
+                    }
+                    None => {
+                        log::warn!(
+                            "Unexpected telegram without source address after token pass to #{}",
+                            self.token_ring.next_station()
+                        );
+                    }
                 }
 
                 // In case this was a telegram to us, we must already handle it in ActiveIdle state
